@@ -246,7 +246,7 @@ def gen_scalar(r, op, kw, kind, ctx):
     if kind == 'lname':
         if ctx.get('long_name') and r.random() < 0.5:
             return {'$ref': r.choice(ctx['long_name'])}
-        return ascii_text(r, r.choice([1, 7, 40]))
+        return ascii_text(r, r.choice([0, 1, 7, 40]))      # (an empty text is a text)
     if kind.startswith('ref:'):
         t = kind[4:]
         pool = ctx.get(t, []) if t != '*' else [i for v in ctx.values() for i in v]
